@@ -2,9 +2,9 @@
 # sweep.sh <seed> [tier] [ids...] : run every check once at the given seed; one summary line each.
 SEED=${1:-1}; TIER=${2:-quick}; shift; shift
 IDS="$@"; [ -z "$IDS" ] && IDS=$(seq -f 'C%02g' 1 20)
-cd /verif
+cd "$(dirname "$(readlink -f "$0")")"
 for id in $IDS; do
-  VERIF_SEED=$SEED ./check $id $TIER > /var/tmp/sweep-$id-$SEED-$TIER.log 2>&1; rc=$?
-  echo "rc=$rc $(grep -E "^\[$id " /var/tmp/sweep-$id-$SEED-$TIER.log | tail -1)"
-  grep -E "^VIOLATION|^INCONCLUSIVE|signature:" /var/tmp/sweep-$id-$SEED-$TIER.log | cut -c1-300
+  VERIF_SEED=$SEED ./check $id $TIER > /var/tmp/sweep-$$-$id-$SEED-$TIER.log 2>&1; rc=$?
+  echo "rc=$rc $(grep -E "^\[$id " /var/tmp/sweep-$$-$id-$SEED-$TIER.log | tail -1)"
+  grep -E "^VIOLATION|^INCONCLUSIVE|signature:" /var/tmp/sweep-$$-$id-$SEED-$TIER.log | cut -c1-300
 done
